@@ -7,4 +7,6 @@ python3 tools/extract.py >/dev/null
 (cd lean && lake build Rsdns driver)
 [ -f harness/Cargo.lock ] || cp /repo/Cargo.lock harness/Cargo.lock
 (cd harness && cargo build --offline)
+[ -f harness/typecheck/Cargo.lock ] || cp /repo/Cargo.lock harness/typecheck/Cargo.lock
+(cd harness/typecheck && cargo check --offline)
 echo "setup ok"
